@@ -77,7 +77,9 @@ Leaves == {"undefined", "true", "false", "i0", "im1", "imax", "u1", "umax", "f1_
            "s_html", "s_badutf8", "s_u2028", "b_empty", "b_ab", "function", "error", "a_empty", "m_empty",
            \* sizes beyond the encoder's internal buffers / streaming thresholds: 770 and 4097 bytes (not multiples of 3),
            \* a 6000-character string with characters to escape throughout, a 3000-element array, a 400-key map
-           "b_770", "b_4097", "s_6000", "a_3000", "m_400"}
+           "b_770", "b_4097", "s_6000", "a_3000", "m_400",
+           \* every control character, DEL, the characters with short escapes
+           "s_ctrl"}
 Unrepresentable == {"function", "error", "fnan", "finf"}
 Trees1 == [k : {"leaf"}, v : Leaves]
 Trees2 == Trees1 \cup [k : {"arr"}, a : Leaves, b : Leaves] \cup [k : {"arr1"}, a : Leaves]
